@@ -658,6 +658,73 @@ def machine(tier, sink, agg):
     return make_machine(SurgeryMachine, 'history', sink, agg, new_state, apply)
 
 
+# ------------------------------------------------------------------------------ sizes beyond 2^16 vertices
+def large_cases(tier):
+    out = [dict(op='to_meshtri', n=221, style=None), dict(op='to_meshtri', n=221, style='x'), dict(op='restrict', n=260),
+           dict(op='add', n=230)]
+    if tier == 'thorough':
+        out += [dict(op='to_meshtri', n=331, style='x'), dict(op='restrict', n=400)]
+    return out
+
+
+def body_large(c, ctx):
+    """index arithmetic at sizes the random sub-checks never reach (products of vertex numbers beyond int32); vectorised oracles"""
+    import skfem
+    ctx.nt(True)
+    ctx.cls('large:' + c['op'])
+    n = c['n']
+    x = np.linspace(0.0, 1.0, n)
+    sig = dict(op=c['op'], large=True)
+    sides = {'left': lambda p: p[0] == 0.0, 'right': lambda p: p[0] == 1.0, 'bottom': lambda p: p[1] == 0.0, 'top': lambda p: p[1] == 1.0}
+    if c['op'] == 'to_meshtri':
+        mq = skfem.MeshQuad.init_tensor(x, x)
+        mq = mq.with_boundaries({k: f for k, f in sides.items()}).with_subdomains({'low': lambda p: p[1] < 0.5})
+        kw = {'style': c['style']} if c['style'] else {}
+        mt = mq.to_meshtri(**kw)
+        for name, pred in sides.items():
+            got = np.sort(np.asarray(mt.boundaries[name]).astype(np.int64))
+            if len(got) and (got.min() < 0 or got.max() >= mt.nfacets):
+                ctx.fail('split_boundary_facets', f'{name}: facet index out of range', **sig)
+                return
+            on = pred(mt.p)
+            want = np.nonzero(on[mt.facets[0]] & on[mt.facets[1]])[0]
+            if not np.array_equal(got, want):
+                ctx.fail('split_boundary_facets', f'{name}: {len(got)} facets named, {len(want)} lie on that side, '
+                         f'{len(np.setdiff1d(got, want))} wrong', **sig)
+                return
+        cen = mt.p[:, mt.t].mean(1)
+        if not np.array_equal(np.sort(mt.subdomains['low']), np.nonzero(cen[1] < 0.5)[0]):
+            ctx.fail('split_subdomain_cells', 'low', **sig)
+    elif c['op'] == 'restrict':
+        m = skfem.MeshTri.init_tensor(x, x).with_boundaries({k: f for k, f in sides.items()})
+        cen = m.p[:, m.t].mean(1)
+        keep = np.nonzero(cen[0] < 0.5)[0]
+        r = m.restrict(keep)
+        cr = r.p[:, r.t].mean(1)
+        if r.nelements != len(keep) or not np.allclose(np.sort(cr[0] + 2 * cr[1]), np.sort(cen[0, keep] + 2 * cen[1, keep]), rtol=0, atol=1e-12):
+            ctx.fail('restrict_cells', 'large mesh', **sig)
+            return
+        for name in ('left', 'bottom', 'top'):
+            got = np.sort(np.asarray(r.boundaries[name]).astype(np.int64))
+            on = sides[name](r.p)
+            mid = r.p[:, r.facets].mean(1)
+            want = np.nonzero(on[r.facets[0]] & on[r.facets[1]])[0]
+            if not np.array_equal(got, want):
+                ctx.fail('restrict_boundary_facets', f'{name}: {len(got)} named, {len(want)} expected', **sig)
+                return
+    else:
+        a = skfem.MeshTri.init_tensor(x, x)
+        b = a.translated((1.0, 0.0))
+        s = a + b
+        if s.p.shape[1] != 2 * n * n - n or s.nelements != 2 * a.nelements:
+            ctx.fail('join_vertices', f'{s.p.shape[1]} vertices, {2 * n * n - n} distinct', **sig)
+            return
+        e1, e2 = s.p[:, s.t[1]] - s.p[:, s.t[0]], s.p[:, s.t[2]] - s.p[:, s.t[0]]
+        area = 0.5 * np.abs(e1[0] * e2[1] - e1[1] * e2[0]).sum()
+        if abs(area - 2.0) > 1e-9 or len(s.boundary_facets()) != 6 * (n - 1):
+            ctx.fail('join_cells', f'area {area}, {len(s.boundary_facets())} boundary facets', **sig)
+
+
 PROP = Prop(
     'C18', 'mesh surgery keeps geometry valid and carries tags to the same entities',
     rule=('generated tagged meshes of all classes; every operation has an explicit model on cells/facets identified by '
@@ -677,6 +744,7 @@ PROP = Prop(
           Sub('join', body_join, strategy=case_join, quick=300, thorough=5000),
           Sub('split', body_split, strategy=case_split, quick=250, thorough=5000),
           Sub('misc', body_misc, strategy=case_misc, quick=500, thorough=8000),
-          Sub('history', history_body(new_state, apply), machine=machine, quick=150, thorough=2500, steps=(6, 14))],
+          Sub('history', history_body(new_state, apply), machine=machine, quick=150, thorough=2500, steps=(6, 14)),
+          Sub('large', body_large, cases=large_cases, max_shards=8)],
     design_ref='DESIGN.md section 6, C18')
 PROP.rule += ('. Added in round 2: m + (mirror image of m obtained with scaled((-1, 1, ..)) after moving m to x >= 0): shared vertices are stored as 0.0 in one operand and -0.0 in the other.')
